@@ -120,6 +120,13 @@ func (s *Heatmap) WriteHeader(colNames ...string) (colCount int) {
 		name := colNames[i]
 		nameLen := color.StrLen(name)
 
+		if nameLen == 0 && i == 0 {
+			// An empty first column name would never advance the cursor
+			sb.WriteRune(delim)
+			i++
+			continue
+		}
+
 		if i != 0 && i+nameLen+delimCount >= colCount {
 			// Too long, jump to last displayable key
 			name = colNames[colCount-1]
